@@ -58,6 +58,9 @@ def run(sd, ids=None, tier="quick"):
         if r.returncode != 0:
             return {"error": "patch does not apply: " + r.stderr[-200:]}
         for pid in ids:
+            if not os.path.exists(os.path.join(V, "harness", "props", pid + ".py")):
+                out[pid] = {"rc": None, "caught": False, "with_input": False, "lines": ["no check module for " + pid], "wall": 0, "stderr": ""}
+                continue
             t0 = time.time()
             p = sh([os.path.join(V, "harness", "check"), pid, "--tier", tier], env=dict(os.environ, VERIF_REPO=t), cwd=V, timeout=7200)
             lines = [l for l in p.stdout.split("\n") if l.startswith(("VIOLATION", "BROKEN", "KNOWN", "PASS", "FAIL"))]
@@ -87,6 +90,6 @@ if __name__ == "__main__":
                 continue
             res = run(sd, tier=tier)
             for pid, r in res.items() if isinstance(res, dict) and "error" not in res else []:
-                rows.append((name, pid, "CAUGHT" if r["caught"] else "missed", "input" if r["with_input"] else "-", r["wall"]))
+                rows.append((name, pid, "CAUGHT" if r["caught"] else ("no-check" if r["rc"] is None else "missed"), "input" if r["with_input"] else "-", r["wall"]))
                 print("%-28s %s %-7s %-6s %6.1fs" % rows[-1], flush=True)
         json.dump(rows, open(os.path.join(V, "seeded", "RESULTS.json"), "w"), indent=1)
